@@ -1188,6 +1188,10 @@ def e2e_checks(ctx, pid, seed, count, opts_fn, what_prefix, rooms=False, cov_key
                 "(effective sizes from the export's factor / offset fields plus the reserved places, housedb evaluated in Coq)" % what_prefix
         elif r["exit"] == 0 and not c & cde.IMP["write_agree"]:
             dis.append(r)
+        elif r["exit"] == 0 and r.get("doc_code") is not None and (r["doc_code"] & 3) == 3 and not (r["doc_code"] & 32):
+            w = "C08: the quality figures in the summary of the import file (solution quality / overall assignment quality) are not the mean penalty of the " \
+                "written assignment resp. the combined figure with the rated ignored pre-assigned participants of the export (binary32 bit patterns, " \
+                "QualityComb.comb_num / comb_den with the reader model's external data, evaluated in Coq)"
         elif r["exit"] == 0 and r.get("doc_code") is not None and (r["doc_code"] & 1) and (r["doc_code"] & 14) != 14:
             dis_doc.append(r)
         elif r["exit"] != 0 and r["lists"] is not None:
@@ -1429,7 +1433,11 @@ def streams_solver_tie(ctx, scale, off):
 
 
 def c08_extra(ctx, cases):
-    return c12_extra(ctx, cases, for_c08=True)
+    v1, k1 = c12_extra(ctx, cases, for_c08=True)
+    # end to end: the figures the binary prints into the summary of the import file (with and without ignored pre-assigned participants)
+    # against the model's mean penalty / combined figure (CorrDoc bit 32)
+    v2, k2 = e2e_checks(ctx, "C08", ctx.seed + 8, 70 if ctx.tier == "quick" else 700, c11_opts, "C08", cov_key="cli_runs_summary_figures")
+    return (v1 + [v for v in v2 if v[0].startswith("C08")])[:4], k1 + k2
 
 
 def streams_c08(ctx, scale, off):
